@@ -33,7 +33,8 @@ def int_range(ty):
 
 
 def is_slice_ref(ty):
-    return bool(re.match(r"^(&(mut )?(\'\w+ )?|\*const |\*mut )\[[^;\]]+\]$", ty)) or ty in ("&str", "&mut str")
+    return bool(re.match(r"^(&(mut )?(\'\w+ )?|\*const |\*mut )\[[^;\]]+\]$", ty)) or ty in ("&str", "&mut str") \
+        or bool(re.match(r"^&(mut )?(\'\w+ )?bitvec::slice::BitSlice(<.*>)?$", ty))  # bit slices: the tracked length is the number of bits
 
 
 def array_len(ty):
@@ -213,6 +214,15 @@ def place_var(pl):
         if e[0] not in ("deref", "f", "dc"):
             return None
     return ("v", l, proj)
+
+
+def bit_len_of_type(ty):
+    """number of bits of a bitvec BitArray type like `&bitvec::array::BitArray<[usize; 2]>`"""
+    m = re.search(r"BitArray<\[(\w+); (\d+)\]", ty)
+    if not m:
+        return None
+    w = {"u8": 8, "u16": 16, "u32": 32, "u64": 64, "usize": 64}.get(m.group(1))
+    return w * int(m.group(2)) if w else None
 
 
 _GETTERS = {}
@@ -847,6 +857,58 @@ class NumAnalysis:
         if callee in LEN_FNS and len(args) == 1:
             set_dest_int(self.ev_len_of_ref(st, args[0]))
             return
+        # ---- bitvec: bit arrays of a fixed number of bits
+        if "bitvec::" in callee:
+            bl = bit_len_of_type(c["argtys"][0]) if c["argtys"] else None
+
+            def bits_of_arg0():
+                if bl is not None:
+                    return dict(lo=bl, hi=bl, rel=[(Z, bl, bl)])
+                pj0 = args[0].get("mv") or args[0].get("cp")
+                v = ("len", pj0["l"], ()) if pj0 is not None and not pj0.get("p") else None
+                if v is not None and st.z.hi(v) != INF:
+                    return dict(lo=max(0, st.z.lo(v)), hi=st.z.hi(v), rel=[(v, 0, 0)])
+                return None
+            if re.search(r"impl std::ops::(Deref|DerefMut) for bitvec::array::BitArray<A, O>>::deref(_mut)?$", callee) and bl is not None and not dpl[1]:
+                self.kill_tree(st, dpl[0], dpl[1])
+                st.z.set_interval(("len", dpl[0], ()), bl, bl)
+                return
+            if re.search(r"impl std::ops::Index(Mut)?<Idx> for bitvec::(array::BitArray<A, O>|slice::BitSlice<T, O>)>::index(_mut)?$", callee) and len(args) == 2:
+                base = bits_of_arg0()
+                if base is None:
+                    self.oblige(b, "call", "bit-index:len-unknown", None, "bit index into a bit slice of unknown length")
+                    self.kill_tree(st, dpl[0], dpl[1])
+                    return
+                if int_range(c["argtys"][1]) is not None:
+                    ix = self.ev_operand(st, args[1])
+                    lo, hi = self.diff_bounds(st, ix, base)
+                    self.oblige(b, "call", "bit-index:idx<len", hi <= -1 and ix["lo"] >= 0, "bit index %s < %s bits" % (fmt_itv(ix), fmt_itv(base)))
+                    self.kill_tree(st, dpl[0], dpl[1])
+                    return
+
+                def set_bits(val):
+                    if not dpl[1]:
+                        self.assign_int(st, ("len", dpl[0], ()), val, None, clamp=False)
+                self.index_call(st, b, c, args, set_bits, base=base)
+                return
+            if re.search(r"bitvec::slice::BitSlice::<T, O>::(set|replace|swap)$", callee) and len(args) >= 2:
+                base = bits_of_arg0()
+                ix = self.ev_operand(st, args[1])
+                if base is None:
+                    self.oblige(b, "call", "bit-set:len-unknown", None, "bit write into a bit slice of unknown length")
+                else:
+                    lo, hi = self.diff_bounds(st, ix, base)
+                    self.oblige(b, "call", "bit-set:idx<len", hi <= -1 and ix["lo"] >= 0, "bit index %s < %s bits" % (fmt_itv(ix), fmt_itv(base)))
+                self.kill_tree(st, dpl[0], dpl[1])
+                return
+            if re.search(r"impl bitvec::slice::BitSlice<T, O>>::get$", callee) and len(args) == 2 and not dpl[1]:
+                base = bits_of_arg0()
+                ix = self.ev_operand(st, args[1])
+                self.kill_tree(st, dpl[0], dpl[1])
+                if base is not None:
+                    lo, hi = self.diff_bounds(st, ix, base)
+                    st.pend[dpl[0]] = ("opt", hi <= -1 and ix["lo"] >= 0, "bit index %s < %s bits (BitSlice::get is Some)" % (fmt_itv(ix), fmt_itv(base)), None, None)
+                return
         if callee.startswith("core::slice::index::<impl std::ops::Index") and len(args) == 2:
             self.index_call(st, b, c, args, set_dest_len)
             return
@@ -921,6 +983,13 @@ class NumAnalysis:
                 n = array_len(tgt)
                 st.pend[dpl[0]] = ("arr", ln["lo"] == n and ln["hi"] == n, "len %s == %d" % (fmt_itv(ln), n), None, tgt)
             return
+        if (callee.endswith("Option::<T>::unwrap") or callee.endswith("Option::<T>::expect")) and args:
+            src = args[0].get("mv") or args[0].get("cp")
+            if src is not None and mk_place(src)[0] in st.pend and not mk_place(src)[1] and st.pend[mk_place(src)[0]][0] == "opt":
+                kind, ok, detail, frozen, tgt = st.pend[mk_place(src)[0]]
+                self.oblige(b, "call", "option-unwrap:" + kind, ok, detail)
+                self.kill_tree(st, dpl[0], dpl[1])
+                return
         if (callee.endswith("Result::<T, E>::unwrap") or callee.endswith("Result::<T, E>::expect")) and args:
             src = args[0].get("mv") or args[0].get("cp")
             if src is not None and mk_place(src)[0] in st.pend and not mk_place(src)[1]:
@@ -1108,8 +1177,8 @@ class NumAnalysis:
     def _freeze(self, a):
         return dict(lo=a["lo"], hi=a["hi"], rel=list(a["rel"]))
 
-    def index_call(self, st, b, c, args, set_dest_len):
-        base = self.ev_len_of_ref(st, args[0])
+    def index_call(self, st, b, c, args, set_dest_len, base=None):
+        base = self.ev_len_of_ref(st, args[0]) if base is None else base
         rty = c["argtys"][1]
         rj = args[1].get("mv") or args[1].get("cp")
         dpl = mk_place(c["dest"])
